@@ -48,15 +48,18 @@ type BackendScript struct {
 	Err        *RPCError       // terminal error (nil = OK)
 	ErrAfter   int             // messages sent before the error (capped to len(Msgs))
 	TrailersOnly bool          // gRPC / gRPC-Web: error with no messages goes into the headers
+	BadEnd      string         // in-body end of stream (gRPC-Web trailer frame, Connect end-stream message): "garbage", "empty", "corrupt" (with CompressEnd)
 	EndAfterCut bool           // gRPC: after CutAt stopped the body, still send the (successful) trailers
 	CompressEnd bool           // Connect stream / gRPC-Web: compress the end-of-stream (trailer) frame; Connect unary: compress the error body
 	Headers    http.Header
+	ForceHeaders http.Header // set (replacing whatever the protocol logic chose) at the moment the head is written
 	Trailers   http.Header
 	DeclareCase     int        // spelling of the names inside the Trailer declaration: 0 as set, 1 lower case, 2 upper case
 	DeclareTrailers bool       // announce trailers in the Trailer header instead of using http.TrailerPrefix
 	Bare       *BareHTTP       // bare HTTP failure instead of an RPC response
 	DeclLen    bool            // set Content-Length on un-enveloped responses
 	LenDelta   int             // lie: declared length = actual + delta
+	ZeroReads  bool            // issue a Read with an empty buffer before every real read
 	ReadBuf    int             // request read buffer size (0 = 32 KiB)
 	WriteSeg   []int           // response body segmentation (sizes); nil = one write per frame
 	FlushEach  bool
@@ -107,6 +110,7 @@ type BackendObs struct {
 	Direct      bool   // the handler was given the server's own ResponseWriter (pass-through)
 	Written     []byte // response body bytes handed to the ResponseWriter
 	Rejected    bool   // FailOnBad: the request was refused
+	Endless     bool   // the request body never reached its end (read loop cut off)
 }
 
 func (o *BackendObs) bad(format string, args ...any) { o.Bad = append(o.Bad, fmt.Sprintf(format, args...)) }
@@ -202,6 +206,18 @@ func (b *Backend) readAll(r *http.Request) {
 	buf := make([]byte, n)
 	var all []byte
 	for {
+		if b.Script.ZeroReads {
+			// a read into an empty buffer is legal and means nothing
+			if k0, err0 := r.Body.Read(buf[:0]); err0 != nil && err0 != io.EOF {
+				o.ReadErr = fmt.Errorf("zero-length read: %w", err0)
+				break
+			} else if k0 != 0 {
+				o.ReadErr = fmt.Errorf("zero-length read returned %d bytes", k0)
+				break
+			} else if err0 == io.EOF {
+				// acceptable only if the body really is at its end: the next read tells
+			}
+		}
 		k, err := r.Body.Read(buf)
 		o.ReadCalls++
 		all = append(all, buf[:k]...)
@@ -211,8 +227,10 @@ func (b *Backend) readAll(r *http.Request) {
 			}
 			break
 		}
-		if o.ReadCalls > 50_000_000 {
-			o.ReadErr = fmt.Errorf("read loop did not terminate")
+		if o.ReadCalls > 300_000 || len(all) > 1<<30 {
+			// the body the transcoder hands over does not end (bounded progress: no scenario needs this many reads)
+			o.Endless = true
+			o.ReadErr = fmt.Errorf("request body did not end after %d reads / %d bytes", o.ReadCalls, len(all))
 			break
 		}
 	}
@@ -665,6 +683,33 @@ func (s *segWriter) write(p []byte) {
 	}
 }
 
+// forceHeaderWriter overrides response headers right before the head goes out (a backend lying about its content-type
+// or declaring an encoding it does not use).
+type forceHeaderWriter struct {
+	http.ResponseWriter
+	force http.Header
+	done  bool
+}
+
+func (f *forceHeaderWriter) apply() {
+	if !f.done {
+		f.done = true
+		for k, v := range f.force {
+			f.ResponseWriter.Header()[k] = append([]string(nil), v...)
+		}
+	}
+}
+func (f *forceHeaderWriter) WriteHeader(code int) { f.apply(); f.ResponseWriter.WriteHeader(code) }
+func (f *forceHeaderWriter) Write(p []byte) (int, error) {
+	f.apply()
+	return f.ResponseWriter.Write(p)
+}
+func (f *forceHeaderWriter) Flush() {
+	if fl, ok := f.ResponseWriter.(http.Flusher); ok {
+		fl.Flush()
+	}
+}
+
 func (b *Backend) setTrailers(w http.ResponseWriter, tr http.Header) {
 	for k, v := range tr {
 		key := k
@@ -720,6 +765,9 @@ func grpcStatusInto(h http.Header, e *RPCError, prefix string) {
 
 func (b *Backend) respond(w http.ResponseWriter, r *http.Request) {
 	s, o := b.Script, b.Obs
+	if len(s.ForceHeaders) > 0 {
+		w = &forceHeaderWriter{ResponseWriter: w, force: s.ForceHeaders}
+	}
 	h := w.Header()
 	for k, v := range s.Headers {
 		h[k] = append([]string(nil), v...)
@@ -861,8 +909,17 @@ func (b *Backend) respond(w http.ResponseWriter, r *http.Request) {
 		}
 		fl := byte(0x80)
 		tdata := tb.Bytes()
+		switch s.BadEnd {
+		case "garbage":
+			tdata = []byte("this line has no colon\r\n")
+		case "empty":
+			tdata = nil
+		}
 		if comp != "" && s.CompressEnd {
 			tdata, fl = compressWith(comp, tdata), 0x81
+			if s.BadEnd == "corrupt" {
+				tdata = append(append([]byte(nil), tdata[:10]...), []byte("not-deflate-data")...)
+			}
 		}
 		if s.RawFlagsEnd != nil {
 			fl = *s.RawFlagsEnd
@@ -891,8 +948,17 @@ func (b *Backend) respond(w http.ResponseWriter, r *http.Request) {
 		}
 		data, _ := json.Marshal(end)
 		fl := byte(2)
+		switch s.BadEnd {
+		case "garbage":
+			data = []byte(`{"error": {"code": `)
+		case "empty":
+			data = nil
+		}
 		if comp != "" && s.CompressEnd {
 			data, fl = compressWith(comp, data), 3
+			if s.BadEnd == "corrupt" {
+				data = append(append([]byte(nil), data[:10]...), []byte("not-deflate-data")...)
+			}
 		}
 		if s.RawFlagsEnd != nil {
 			fl = *s.RawFlagsEnd
